@@ -160,6 +160,9 @@ void run_case(Tape& t, Stats& st) {
 	LBmp L = gen_lbmp(t);
 	if (st.want_sample()) st.sample("{\"file\":{\"depth\":" + std::to_string(L.depth) + ",\"width\":" + std::to_string(L.width) + ",\"height\":" + std::to_string(L.height) + ",\"used_colors\":" + std::to_string(L.usedColors) + ",\"shift\":" + std::to_string(L.shift) + "}}");
 	if (L.compression != 0) { candidate_case(L, st, "nonzero_compression_field"); return; }   // refusing such a file is as good as accepting it lawfully
+	// one file in ten carries a few bytes more (or fewer) pixel data than width x height asks for, counted in the size field and present in the
+	// stream - e.g. a file padded to a multiple of four: refused, or accepted and then lawful (exactly |height| rows of the pitch)
+	if (t.below(10) == 0) { int d = t.pick<int>({1, 2, 3, 1, 2, 3, 4, 8, -1, -2, -4}); if (d > 0 || L.pixels.size() >= size_t(-d)) { L.pixels.resize(L.pixels.size() + size_t(int64_t(d)), 0x11); candidate_case(L, st, d > 0 ? "surplus_pixel_bytes" : "missing_pixel_bytes"); return; } }
 	file_case(L, st);
 }
 
@@ -178,6 +181,12 @@ void run_sweep(Stats& st) {
 			file_case(L, st);
 		}
 		for (unsigned mode = 0; mode < 3; ++mode) { Tape t(tp); factory_case(depth, uint32_t(width), height, mode, t, st); }
+		for (int d : {1, 2, 3, 4, -1}) {   // surplus / missing pixel bytes, counted in the size field: refused, or accepted and lawful
+			LBmp L; L.depth = depth; L.width = width; L.height = height; for (size_t i = 0; i < (size_t(1) << depth); ++i) L.palette.push_back({uint8_t(i), uint8_t(i * 2), uint8_t(i * 3), 0});
+			size_t n = size_t(refgfx::pitch(uint64_t(width), depth) * absh(height)); if (d < 0 && n == 0) continue;
+			L.pixels.assign(n + size_t(int64_t(d)), 0x6E); if (d == 4) { L.imageSize = uint32_t(n); }
+			candidate_case(L, st, d > 0 ? "surplus_pixel_bytes" : "missing_pixel_bytes");
+		}
 	}
 	// rows wider than any 16-bit quantity (a width, a pitch or a row bit count squeezed through 16 bits would alias a narrow picture)
 	for (unsigned depth : {1u, 4u, 8u}) for (uint32_t width : {65535u, 65536u, 65537u, 65569u, 131072u, 131073u, (1u << 20) + 1}) for (int32_t height : {1, -2, 3}) {
